@@ -430,6 +430,36 @@ func runC03(r *Run) int {
 			w.Sample(map[string]interface{}{"vector": v.Canonical(spec.LEnv), "expected_env": float64(spec.Score3(&v).Env) / 10, "built": "struct"})
 		}
 	})
+	// (a') all 518,400 vectors WITHOUT any environmental metric (every environmental metric Not Defined),
+	// on directly built objects and, for a seeded eighth, through Decode with X spelled or omitted
+	r.Parallel(2*nBase3, 8, func(w *W, idx int) {
+		rng := r.Rng(uint64(idx) + 1<<42)
+		e := m3.NewEnvironmental()
+		o := lib.Obj{Kind: lib.K3E, E3: e}
+		for ti := 0; ti < 100; ti++ {
+			v := newV3(idx/nBase3, idx%nBase3)
+			temporal3(&v, ti)
+			for m := spec.CR; m <= spec.MA; m++ {
+				v.M[m] = 0
+			}
+			lib.Fill3(e, &v)
+			exp := spec.Score3(&v).Env
+			got, pan := o.Score()
+			w.Eval(1)
+			w.Count("vectors_without_environmental_metrics")
+			if pan != nil || !tenthEq(got, exp) {
+				w.Violate(Violation{Monitor: "C03", Check: "environmental score of an object whose environmental metrics are all Not Defined equals the exact FIRST value", Case: structCase(&v), Observed: got, Expected: float64(exp) / 10})
+			}
+			if rng.IntN(8) == 0 {
+				respell(&v, spec.LEnv, rng)
+				s := render3(&v, spec.LEnv, nil)
+				w.Eval(1)
+				if _, _, ev, ok := obsScores3(w, spec.LEnv, s); ok && !tenthEq(ev, exp) {
+					w.Violate(Violation{Monitor: "C03", Check: "environmental score of a decoded vector without environmental metrics equals the exact FIRST value", Case: decodeCase(lib.K3E, s, false), Observed: ev, Expected: float64(exp) / 10})
+				}
+			}
+		}
+	})
 	// (b) through Decode with random order / omission
 	nDec := r.Pick(300000, nEff3*100)
 	r.Parallel(nDec, 64, func(w *W, i int) {
@@ -518,7 +548,7 @@ func runC03(r *Run) int {
 	if r.Counter("valid_vector_not_decoded") > 0 || r.Counter("score_panicked") > 0 {
 		r.Inconclusive("%d valid vectors were not decoded / %d queries panicked", r.Counter("valid_vector_not_decoded"), r.Counter("score_panicked"))
 	}
-	rule := "(a) the full effective-metric x temporal product (2 versions x 96 exploitability/scope x 27 C/I/A x 27 requirement classes x 100 E/RL/RC = 13,996,800) on directly built objects, each with a seed-chosen representation (Modified explicit with arbitrary base value, or X with the base carrying it; MS X/U/C against S; requirement X or M); (b) "
+	rule := "(a') all 518,400 (version, base, temporal) vectors with every environmental metric Not Defined, built directly and (an eighth) decoded; (a) the full effective-metric x temporal product (2 versions x 96 exploitability/scope x 27 C/I/A x 27 requirement classes x 100 E/RL/RC = 13,996,800) on directly built objects, each with a seed-chosen representation (Modified explicit with arbitrary base value, or X with the base carrying it; MS X/U/C against S; requirement X or M); (b) "
 	if r.Thorough() {
 		rule += "the same product entirely through NewEnvironmental().Decode with random order/omission; (d) the full 2 x 2,592 x 2,211,840 (version x base x environmental) product on directly built objects"
 	} else {
